@@ -236,6 +236,14 @@ func c19Attempt(kind string, c constSpec, n int64) (string, bool) {
 		if C == "CFI" {
 			return C + " = 2", true
 		}
+	case "equal-other-type-nested":
+		// the same container with one integer element written as the numerically equal float
+		if (isArr || isMap) && C != "C_NEST" {
+			lit := c.literal()
+			if m := regexp.MustCompile(`\b(\d+)\b([,\]}])`).FindStringSubmatchIndex(lit); m != nil {
+				return C + " = " + lit[:m[3]] + ".0" + lit[m[3]:], true
+			}
+		}
 	case "same-value":
 		return C + " = " + c.literal(), k != "func" && k != "float" || k == "float"
 	}
@@ -244,7 +252,7 @@ func c19Attempt(kind string, c constSpec, n int64) (string, bool) {
 
 var c19Kinds = []string{"assign", "define", "incr-post", "incr-pre", "decr-post", "decr-pre", "idx-assign", "dot-assign", "new-key", "del-elem", "del-elem-idx",
 	"loop-int", "loop-list", "loop-int-read", "loop-list-read", "loop-int-self", "loop-int-deep", "loop-list-self", "param", "param-func", "nested-assign", "nested-define", "nested-idx", "loop-assign", "self-append", "catch-assign",
-	"alias-idx", "callee-mutates", "nested-elem", "slow-idx", "same-value", "equal-other-type"}
+	"alias-idx", "callee-mutates", "nested-elem", "slow-idx", "same-value", "equal-other-type", "equal-other-type-nested"}
 
 func (c19) Generate(r *core.Rng, run int, tier string) *core.History {
 	h := &core.History{Cfg: map[string]int64{"maxdepth": 1000}, Flags: map[string]bool{}, Strs: map[string]string{}}
